@@ -25,6 +25,12 @@ def main() -> None:
                 opened += 1
     nfix = subprocess.run(["git", "-C", "/repo", "log", "--format=%s", "8d20616..HEAD"], capture_output=True, text=True).stdout.splitlines()
     nfix = [s for s in nfix if s.startswith("fix:")]
+    open_rows = ["| Key | What fails, and why it is not repaired |", "|---|---|"]
+    for f in sorted(glob.glob(str(V / "known_findings" / "C*.json"))):
+        for x in json.loads(Path(f).read_text())["findings"]:
+            if x["status"] != "fixed":
+                what = " ".join(str(x.get("what", "")).split())
+                open_rows.append(f"| `{x['key']}` | {what[:520]}{'…' if len(what) > 520 else ''} |")
     findings = (f"{fixed + opened} finding keys in {len(props_with)} properties were confirmed against the real code: {fixed} repaired, {opened} left open.")
     rows = []
     tot = det = inp = 0
@@ -40,12 +46,14 @@ def main() -> None:
             keys = [k for k in (m.get("check", {}).get("replay_keys") or []) if k]
             first = (m.get("needs_to_manifest") or "").strip().splitlines()
             title = next((l.lstrip("# ").strip() for l in first if l.strip()), "")
-            verdict = "caught, failing input" if m.get("detected_with_failing_input") else ("caught, no-failing-input-found" if m.get("detected") else "MISSED")
+            stale = m.get("final_head", {}).get("still_valid") is False
+            verdict = "(invalidated by a later fix commit) " if stale else ""
+            verdict += "caught, failing input" if m.get("detected_with_failing_input") else ("caught, no-failing-input-found" if m.get("detected") else "MISSED")
             rows.append(f"| {m['id']} | {title[:110]} | {verdict} | {', '.join('`' + k + '`' for k in keys[:2])}{' …' if len(keys) > 2 else ''} |")
     seeded = (f"{tot} confirmed changes over {len(by_prop)} properties; the property's own quick check reported {det} of them, {inp} with a concrete failing "
               f"input (state after strengthening; the first evaluation is kept in each `meta.json` under `history` where it differed).\n\n"
               "| Change | What it is (first line of the author's notes) | Check result | First replay keys |\n|---|---|---|---|\n" + "\n".join(rows))
-    text = (tmpl.replace("@@OBL@@", str(obl)).replace("@@FINDINGS@@", findings).replace("@@NFIX@@", str(len(nfix))).replace("@@SEEDED@@", seeded))
+    text = (tmpl.replace("@@OBL@@", str(obl)).replace("@@FINDINGS@@", findings).replace("@@NFIX@@", str(len(nfix))).replace("@@SEEDED@@", seeded).replace("@@OPEN@@", "\n".join(open_rows)))
     d = (V / "DESIGN.md").read_text()
     b, e = "<!-- BEGIN-11 -->", "<!-- END-11 -->"
     if b not in d:
